@@ -12,6 +12,7 @@ sys.path.insert(0, HERE)
 ENGINE_OF = {
     'C18': 'engines.e_thr',
     'C10': 'engines.e_solve',
+    'C06': 'engines.e_pa',
 }
 
 
